@@ -19,6 +19,7 @@ EXTENDS Fidelity
 
 CONSTANTS
   Srcs, PCs, HCs, Bes, ModesC, Vias, Shapes,   \* input dimensions to enumerate (Shapes: publish request shapes)
+  Feats,       \* values of the deliver-route features fan / sg to enumerate: {FALSE} or BOOLEAN
   Star,        \* TRUE: vary one content dimension at a time around (CentrePC, CentreHC)
   CentrePC, CentreHC,
   FreeRoute,   \* TRUE: lim / fwd of the route are free (else minimal)
@@ -51,19 +52,24 @@ NeedFwd(hc)     == hc \in CopyHCs
 
 Inputs ==
   {i \in [src : Srcs, pc : PCs, hc : HCs, be : Bes, mode : ModesC, via : Vias \cup {"api"}, lim : BOOLEAN, fwd : BOOLEAN,
-          pb : Shapes \cup {"single"}] :
+          pb : Shapes \cup {"single"}, fan : Feats, sg : Feats] :
      /\ ValidInput(i)
      /\ ~FreeRoute => (i.lim = NeedLim(i.pc, i.hc) /\ i.fwd = NeedFwd(i.hc))
      /\ i.fwd => i.src = "ingress"
-     /\ Star => \/ /\ i.hc = CentreHC /\ i.pb = "single"
-                   /\ (i.via \in {"handler", "api"} \/ i.pc \in FramePCs)
-                \/ /\ i.pc = CentrePC
-                   /\ (i.via \in {"handler", "wire", "api"} \/ i.hc \in {"none", "hmax", "hmaxp1"})
-                   /\ (i.pb = "single" \/ i.hc \in {"none", "plain"})}
+     /\ Star => /\ \/ /\ i.hc = CentreHC /\ i.pb = "single"
+                      /\ (i.via \in {"handler", "api"} \/ i.pc \in FramePCs)
+                      /\ i.src \in {"mpublish", "mcp"} => i.pc \in FramePCs \cup {CentrePC}
+                   \/ /\ i.pc = CentrePC
+                      /\ (i.via \in {"handler", "wire", "api"} \/ i.hc \in {"none", "hmax", "hmaxp1"})
+                      /\ (i.pb = "single" \/ i.hc \in {"none", "plain"})
+                      /\ i.src \in {"mpublish", "mcp"} => i.hc \in {"none", "plain", "values", "sigcol"}
+                /\ (i.fan \/ i.sg) => /\ i.via \in {"handler", "api", "chunked"}
+                                      /\ i.pc \in {CentrePC, "all256", "big"} /\ i.hc \in {CentreHC, "sigcol"}
+                                      /\ i.pb = "single" /\ i.src \in {"ingress", "publish"}}
 
 (* ---------------------------------------------------------------- operations *)
 OpSubmit(i) == [op |-> "Submit", src |-> i.src, pc |-> i.pc, hc |-> i.hc, be |-> i.be, mode |-> i.mode, via |-> i.via,
-                lim |-> i.lim, fwd |-> i.fwd, pb |-> i.pb, recv |-> Fields(i.hc),
+                lim |-> i.lim, fwd |-> i.fwd, pb |-> i.pb, fan |-> i.fan, sg |-> i.sg, recv |-> Fields(i.hc),
                 auth |-> IF i.fwd THEN AuthFields(i.hc) ELSE <<>>]
 \* b: how the store is asked - "one" (batch 1), "alone" (batch > 1, only this message is ready), "pair" (batch > 1 and a
 \* companion message of the harness is ready on the same route): three different read paths of the SQLite store
@@ -71,10 +77,12 @@ OpDeq(ch, t, b)  == [op |-> "Deq", ch |-> ch, ttl |-> t, b |-> b]
 OpLease(k, ch, f) == [op |-> "LeaseOp", kind |-> k, ch |-> ch, form |-> f]   \* form: lease_id | lease_ids
 OpExtend(ch)     == [op |-> "Extend", ch |-> ch]
 OpExpire         == [op |-> "Expire"]
-OpRequeue(o, b)  == [op |-> "Requeue", outcome |-> o, b |-> b]   \* /dlq/requeue; outcome: first attempt after it (deliver routes), "-" on pull routes
+\* requeue from the DLQ by the Admin API (/dlq/requeue) or by the MCP tool dlq_requeue; outcome: first attempt after it
+\* (deliver routes), "-" on pull routes
+OpRequeue(o, b, by) == [op |-> "Requeue", outcome |-> o, b |-> b, by |-> by]
 OpPush(o, b)     == [op |-> "Push", outcome |-> o, b |-> b]     \* the dispatcher always asks for a batch: "alone" | "pair"
 OpRestart        == [op |-> "Restart"]
-OpList(w)        == [op |-> "List", which |-> w]
+OpList(w)        == [op |-> "List", which |-> w]   \* messages | dlq (Admin API), mcp | mcpdlq (MCP tools messages_list / dlq_list)
 OpCancel(f)      == [op |-> "Cancel", form |-> f]       \* operator: /messages/cancel | cancel_by_filter
 OpResume(f)      == [op |-> "Resume", form |-> f]       \* operator: /messages/resume | resume_by_filter
 OpRequeueMsg(f)  == [op |-> "RequeueMsg", form |-> f]   \* operator: /messages/requeue | requeue_by_filter (dead or canceled)
@@ -87,7 +95,7 @@ OpOther(k, z)    == [op |-> "Other", k |-> k, sz |-> z]
 \* redelivery by nack and by lease expiry, the DLQ and back, operator cancel /
 \* resume / requeue in both forms, and restarts.
 PullTourAll ==
-  << OpList("messages"), OpOther("handler", "longer"),
+  << OpList("messages"), OpOther("handler", "longer"), OpList("mcp"),
      OpDeq("http", "long", "one"),  OpOther("stream", "same"), OpLease("nack", "http", "single"),
      OpOther("wire", "shorter"),
      OpDeq("grpc", "long", "pair"),  OpRestart, OpLease("nack", "grpc", "batch"),
@@ -95,16 +103,17 @@ PullTourAll ==
      OpDeq("inproc", "long", "alone"), OpOther("chunked", "longer"), OpExtend("http"), OpLease("nack", "http", "batch"),
      OpDeq("http", "short", "pair"), OpExpire, OpOther("handler", "same"),
      OpCancel("filter"), OpRestart, OpRequeueMsg("filter"),
-     OpDeq("grpc", "long", "one"),  OpExtend("grpc"), OpLease("dead", "grpc", "single"), OpOther("stream", "longer"), OpList("dlq"),
-     OpRestart, OpRequeue("-", "-"),
+     OpDeq("grpc", "long", "one"),  OpExtend("grpc"), OpLease("dead", "grpc", "single"), OpOther("stream", "longer"), OpList("dlq"), OpList("mcpdlq"),
+     OpRestart, OpRequeue("-", "-", "mcp"),
      OpDeq("inproc", "long", "pair"), OpLease("dead", "http", "batch"), OpRequeueMsg("id"), OpOther("chunked", "shorter"),
      OpDeq("http", "long", "alone"), OpCancel("id"), OpResume("filter"), OpOther("wire", "longer"),
      OpDeq("grpc", "long", "alone"), OpLease("ack", "http", "single"), OpOther("handler", "shorter"), OpList("messages") >>
 PushTourAll ==
-  << OpList("messages"), OpOther("handler", "longer"),
+  << OpList("messages"), OpOther("handler", "longer"), OpList("mcp"),
      OpPush("retry", "alone"), OpOther("stream", "same"), OpRestart, OpCancel("id"), OpOther("publish", "longer"), OpResume("id"),
      OpPush("retry", "pair"), OpOther("wire", "shorter"), OpCancel("filter"), OpRequeueMsg("filter"),
-     OpPush("fatal", "alone"), OpOther("chunked", "same"), OpList("dlq"), OpRestart, OpRequeue("retry", "pair"),
+     OpPush("fatal", "alone"), OpOther("chunked", "same"), OpList("dlq"), OpList("mcpdlq"), OpRestart,
+     OpRequeue("retry", "pair", "admin"),
      OpOther("handler", "same"),
      OpPush("fatal", "alone"), OpRequeueMsg("id"),
      OpCancel("id"), OpResume("filter"), OpOther("chunked", "longer"),
@@ -177,15 +186,16 @@ Push ==
 
 \* operator requeue from the DLQ; on a deliver route the next attempt follows at once
 Requeue ==
-  \/ /\ in.mode = "pull" /\ st = "dead" /\ Go(OpRequeue("-", "-"))
-     /\ st' = "queued" /\ obs' = None
-     /\ Step(OpRequeue("-", "-"))
-     /\ UNCHANGED <<ttl, store, nd, na, rs, no>>
-  \/ \E o \in {"ok", "retry", "fatal"}, b \in {"alone", "pair"} :
-       /\ in.mode = "push" /\ st = "dead" /\ na < MaxAtt /\ Go(OpRequeue(o, b))
+  \/ \E by \in {"admin", "mcp"} :
+       /\ in.mode = "pull" /\ st = "dead" /\ Go(OpRequeue("-", "-", by))
+       /\ st' = "queued" /\ obs' = None
+       /\ Step(OpRequeue("-", "-", by))
+       /\ UNCHANGED <<ttl, store, nd, na, rs, no>>
+  \/ \E o \in {"ok", "retry", "fatal"}, b \in {"alone", "pair"}, by \in {"admin", "mcp"} :
+       /\ in.mode = "push" /\ st = "dead" /\ na < MaxAtt /\ Go(OpRequeue(o, b, by))
        /\ st' = After(o) /\ na' = na + 1
        /\ obs' = See("push")
-       /\ Step(OpRequeue(o, b))
+       /\ Step(OpRequeue(o, b, by))
        /\ UNCHANGED <<ttl, store, nd, rs, no>>
 
 \* operator: cancel a queued, leased or dead message (a lease is dropped), by id or by filter
@@ -221,8 +231,8 @@ Restart ==
 
 \* admin listing with include_payload / include_headers
 List ==
-  \E w \in {"messages", "dlq"} :
-    /\ st # "new" /\ (w = "dlq" => st = "dead") /\ Go(OpList(w))
+  \E w \in {"messages", "dlq", "mcp", "mcpdlq"} :
+    /\ st # "new" /\ (w \in {"dlq", "mcpdlq"} => st = "dead") /\ Go(OpList(w))
     /\ obs' = See(w)
     /\ Step(OpList(w))
     /\ UNCHANGED <<st, ttl, store, nd, na, rs, no>>
